@@ -240,6 +240,36 @@ func (q *qgen) operation(name string) string {
 	return head + " { " + body + " }"
 }
 
+// genQuery: one generated hiding query (possibly two operations, one of them selected)
+func genQuery(r *rng.R, fed bool) (string, string, map[string]any, []string) {
+	q := &qgen{r: r, fed: fed, varDefs: map[string]string{}, vars: map[string]any{}, tags: map[string]bool{}}
+	var query, op string
+	if r.Below(6) == 0 {
+		q.tags["multi-operation"] = true
+		a := q.operation("OpA")
+		// variables are per operation: start a fresh set for the second one
+		va := q.vars
+		q.varDefs, q.vars = map[string]string{}, map[string]any{}
+		b := q.operation("OpB")
+		if r.Below(2) == 0 {
+			op = "OpA"
+			q.vars = va
+		} else {
+			op = "OpB"
+		}
+		query = a + " " + b
+	} else {
+		query = q.operation("")
+	}
+	query += " " + strings.Join(q.frags, " ")
+	var tags []string
+	for t := range q.tags {
+		tags = append(tags, t)
+	}
+	sort.Strings(tags)
+	return strings.TrimSpace(query), op, q.vars, tags
+}
+
 func genGate(root *rng.R, count int, fed bool) {
 	directedQ := []string{
 		`{ __schema { queryType { name } } }`,
@@ -281,31 +311,7 @@ func genGate(root *rng.R, count int, fed bool) {
 	}
 	for i := 0; i < count; i++ {
 		r := root.Fork()
-		q := &qgen{r: r, fed: fed, varDefs: map[string]string{}, vars: map[string]any{}, tags: map[string]bool{}}
-		var query, op string
-		if r.Below(6) == 0 {
-			q.tags["multi-operation"] = true
-			a := q.operation("OpA")
-			// variables are per operation: start a fresh set for the second one
-			va := q.vars
-			q.varDefs, q.vars = map[string]string{}, map[string]any{}
-			b := q.operation("OpB")
-			if r.Below(2) == 0 {
-				op = "OpA"
-				q.vars = va
-			} else {
-				op = "OpB"
-			}
-			query = a + " " + b
-		} else {
-			query = q.operation("")
-		}
-		query += " " + strings.Join(q.frags, " ")
-		var tags []string
-		for t := range q.tags {
-			tags = append(tags, t)
-		}
-		sort.Strings(tags)
-		emitCase(fmt.Sprintf("g/%d", i), strings.TrimSpace(query), op, q.vars, tags, r.Next()%1000)
+		query, op, vars, tags := genQuery(r, fed)
+		emitCase(fmt.Sprintf("g/%d", i), query, op, vars, tags, r.Next()%1000)
 	}
 }
